@@ -136,6 +136,13 @@ func goroutineDump() []string {
 	return out
 }
 
+// goroutineRunning reports whether any goroutine currently has a frame of the given function on its stack.
+func goroutineRunning(fn string) bool {
+	var buf bytes.Buffer
+	pprof.Lookup("goroutine").WriteTo(&buf, 1)
+	return strings.Contains(buf.String(), fn)
+}
+
 var c13Points = []string{"before-any-byte", "partial-frame", "joined-commands-unread", "after-reading-some-commands", "during-write-callback", "at-timer-expiry", "during-teardown", "after-responding-to-some", "manager-behind"}
 
 type c13Scenario struct {
